@@ -443,6 +443,11 @@ def ipoker(rec, sb, bb, hand_id=1234567890):
          f'<game gamecode="{hand_id}">', '<general>',
          '<startdate>2010-01-02 12:34:56</startdate>', '<players>']
     order = sorted(range(rec['n']), key=lambda i: rec['seats'][i])
+    if rec.get('player_order'):
+        # the seat is an attribute: the <player> elements may come in any
+        # order (rec['player_order'] is a permutation seed)
+        import random as _r
+        _r.Random(rec['player_order']).shuffle(order)
     for i in order:
         win = rec['final'][i] - rec['stacks'][i]
         L.append(f'<player seat="{rec["seats"][i]}" name="{N[i]}"'
